@@ -236,6 +236,9 @@ def render(g="g", l="l", dmm=None, eom=True, g2=None):
         A += [
             ("enable_eom", g, 2.0, 0.5, -10.0, False),
             ("eom_pulse", g, 52, 0.5, 0.0, "no-delay", False),
+            # automatic waits inside the block: phase jump after the previous EOM pulse / another channel's pulse
+            ("eom_pulse", g, 40, 2.0, 0.0, "min-delay", False),
+            ("eom_pulse", g, 52, 0.5, 0.0, "wait-for-all", False),
             ("disable_eom", g, False),
         ]
     return A
